@@ -139,6 +139,9 @@ func isStringType(t types.Type) bool {
 
 // scalarSort gives the SMT sort of a scalar-like Go type; "" if the type is not scalar-like.
 func (c *Ctx) scalarSort(t types.Type) string {
+	if isTimeType(t) {
+		return c.idxSort()
+	}
 	switch u := under(t).(type) {
 	case *types.Basic:
 		if w, _, ok := intInfo(u); ok {
@@ -193,6 +196,8 @@ func typeRange(t types.Type) (lo, hi *big.Int, ok bool) {
 
 func typeKey(t types.Type) string {
 	s := types.TypeString(t, func(p *types.Package) string { return p.Name() })
+	// drop type-argument / type-parameter lists so that a generic type and its instantiations share one key
+	s = typeArgsRe.ReplaceAllString(s, "")
 	s = strings.ReplaceAll(s, " ", "_")
 	return s
 }
@@ -226,7 +231,7 @@ func (c *Ctx) fresh(t types.Type, hint string, facts *[]Term) Val {
 	if t == nil {
 		unsupp("fresh of nil type (%s)", hint)
 	}
-	switch u := t.Underlying().(type) {
+	switch u := shapeOf(t).(type) {
 	case *types.Basic, *types.Interface, *types.Signature, *types.Map, *types.Chan, *types.TypeParam:
 		srt := c.scalarSort(t)
 		if srt == "" {
@@ -236,7 +241,7 @@ func (c *Ctx) fresh(t types.Type, hint string, facts *[]Term) Val {
 		if srt == SInt {
 			if lo, hi, ok := typeRange(t); ok {
 				*facts = append(*facts, app(SBool, "<=", IntLit(SInt, lo), x), app(SBool, "<=", x, IntLit(SInt, hi)))
-			} else {
+			} else if !isTimeType(t) {
 				// reference-like: non-negative
 				*facts = append(*facts, app(SBool, "<=", Term{"0", SInt}, x))
 			}
@@ -284,6 +289,9 @@ func (c *Ctx) opaqueType(t types.Type) bool {
 	s := types.TypeString(t, nil)
 	switch s {
 	case "sync.Mutex", "sync.RWMutex", "sync.WaitGroup", "sync.Once", "sync.Cond", "sync/atomic.Value", "sync.Map":
+		return true
+	}
+	if strings.HasPrefix(s, "sync/atomic.") || strings.HasPrefix(s, "context.") {
 		return true
 	}
 	if n, ok := t.(*types.Named); ok {
@@ -377,7 +385,10 @@ func (c *Ctx) sliceWF(s Slice) []Term {
 }
 
 func (c *Ctx) zero(t types.Type) Val {
-	switch u := t.Underlying().(type) {
+	if isTimeType(t) {
+		return Scalar{c.timeZero(), t}
+	}
+	switch u := shapeOf(t).(type) {
 	case *types.Basic, *types.Interface, *types.Signature, *types.Map, *types.Chan, *types.TypeParam:
 		srt := c.scalarSort(t)
 		switch {
@@ -613,7 +624,7 @@ func (c *Ctx) writeLeaf(st *State, fam, leaf string, ref, idx, v Term) {
 // load reads a value of type t stored at (prefix, ref, idx). Range facts of loaded integers are assumed (Go's
 // type system guarantees them); they are conjoined to st.pc.
 func (c *Ctx) load(st *State, prefix string, t types.Type, ref, idx Term) Val {
-	switch u := t.Underlying().(type) {
+	switch u := shapeOf(t).(type) {
 	case *types.Basic, *types.Interface, *types.Signature, *types.Map, *types.Chan, *types.TypeParam:
 		srt := c.scalarSort(t)
 		if srt == "" {
@@ -625,7 +636,7 @@ func (c *Ctx) load(st *State, prefix string, t types.Type, ref, idx Term) Val {
 			v = c.name(v, "ld")
 			if lo, hi, ok := typeRange(t); ok {
 				st.assume(c, And(app(SBool, "<=", IntLit(SInt, lo), v), app(SBool, "<=", v, IntLit(SInt, hi))))
-			} else {
+			} else if !isTimeType(t) {
 				st.assume(c, app(SBool, "<=", Term{"0", SInt}, v))
 			}
 			c.noteUnsigned(v, t)
@@ -668,7 +679,7 @@ func (c *Ctx) load(st *State, prefix string, t types.Type, ref, idx Term) Val {
 }
 
 func (c *Ctx) store(st *State, prefix string, t types.Type, ref, idx Term, v Val) {
-	switch u := t.Underlying().(type) {
+	switch u := shapeOf(t).(type) {
 	case *types.Basic, *types.Interface, *types.Signature, *types.Map, *types.Chan, *types.TypeParam:
 		srt := c.scalarSort(t)
 		sv := c.asScalar(v, t)
@@ -717,7 +728,7 @@ func (c *Ctx) store(st *State, prefix string, t types.Type, ref, idx Term, v Val
 
 // leafFamilies lists (family, leaf sort) pairs of type t under prefix.
 func (c *Ctx) leafFamilies(prefix string, t types.Type, out *[][2]string) {
-	switch u := t.Underlying().(type) {
+	switch u := shapeOf(t).(type) {
 	case *types.Basic, *types.Interface, *types.Signature, *types.Map, *types.Chan, *types.TypeParam:
 		if s := c.scalarSort(t); s != "" {
 			c.noteFam(prefix, t)
@@ -830,6 +841,38 @@ func (s *State) clone() *State {
 func (s *State) assume(c *Ctx, t Term) {
 	if t.S == "true" {
 		return
+	}
+	s.pc = c.name(And(s.pc, t), "pc")
+}
+
+// assumeSoft conjoins a contract clause (invariant, precondition, callee postcondition). Quantified clauses are named
+// individually so that cheaper "light" queries can leave them out (dropping a hypothesis is always sound).
+func (s *State) assumeSoft(c *Ctx, t Term) {
+	if t.S == "true" {
+		return
+	}
+	// a top-level conjunction is assumed clause by clause so that only the quantified conjuncts become droppable
+	if strings.HasPrefix(t.S, "(and ") && c.noName == 0 {
+		parts := splitTopLevel(t.S[5 : len(t.S)-1])
+		if len(parts) > 1 {
+			for _, p := range parts {
+				s.assumeSoft(c, Term{p, SBool})
+			}
+			return
+		}
+	}
+	if c.noName == 0 && (strings.Contains(t.S, "(forall") || strings.Contains(t.S, "(exists")) {
+		level := 1
+		if strings.Contains(t.S, "(exists") {
+			level = 2
+		}
+		sym := c.sym("soft")
+		if c.soft == nil {
+			c.soft = map[int]int{}
+		}
+		c.soft[len(c.decls)] = level
+		c.decls = append(c.decls, fmt.Sprintf("(define-fun %s () Bool %s)", sym, t.S))
+		t = Term{sym, SBool}
 	}
 	s.pc = c.name(And(s.pc, t), "pc")
 }
